@@ -30,6 +30,7 @@ META["text"] += ' (R7 = C13.R3) the registered bets stay in [0, 1/mu_j], so the 
 META["text"] += ' (R8, N) NonnegMean.py keeps no state between calls: outside __init__ nothing is stored into self or a module-level object (a cache whose guard compares every input of the cached value with the stored key excepted), no global, no mutable default. Every check also records (R0) that each function it reads is what a call of its name executes (no wrapping decorator, no re-binding).'
 META["text"] += ' R1 also requires the composition: the history is min(1, 1/T) of that product with nothing applied on top. (R6 also) the constructor keeps its positional protocol (test, estim, bet, u, N, t, random_order).'
 META["text"] += " R7 also: the super-majority test is constructed with the assorter's own bound (the default eta is fixed from the construction-time u) and no tuning array inherits an integer sample's dtype."
+META["text"] += ' (R9, N, whole package) who-may-write on the attributes of a test object (constructor, and `u` at three confirmed sites).'
 
 REL = nnm.REL
 
@@ -38,6 +39,8 @@ def run(chk):
     idx = chk.idx
     R.rule_ctor_signature(chk, "C01.R6")
     R.rule_stateless(chk, "C01.R8")  # first: its refutations stand even if a later rule cannot read the code
+    from .. import aud as _aud
+    _aud.test_config_writers(chk, "C01.R9", "Ville's inequality needs the bets and alternatives to be fixed functions of the past observations")
     reg = nnm.registry(idx)
     fl = nnm.flow(idx, reg)
     chk.explain(
